@@ -275,6 +275,11 @@ func (dm *DMap) atomicIncrByFloat(e *env, delta float64) (float64, error) {
 		if err != nil {
 			return 0, err
 		}
+		if entry.TTL() != 0 {
+			// Keep the expiry of the key, like Incr and Decr do. TTL is a Unix time in milliseconds.
+			e.putConfig.HasPXAT = true
+			e.putConfig.PXAT = time.Duration(entry.TTL()) * time.Millisecond
+		}
 	}
 
 	latest := current + delta
